@@ -16,8 +16,16 @@ SHAPES = ['a', 'Z', '_0', '__', '_A', 'a1', 'A_', 'aB', 'Ab', 'x9_', 'X' * 40, '
           'identifier', 'in', 'out', 'extern', 'My_Project', 'a' * 13, 'Q7']
 
 
+def dict_idents():
+    """Identifier-shaped words from the string literals of the code under test (class tags, key
+    names, 'void', names the generators introduce, ...): vf/dictionary.py."""
+    from vf import dictionary
+    return dictionary.words('short') or ['void']
+
+
 def ident():
-    return st.sampled_from(POOL + POOL + SHAPES)
+    return st.one_of(st.sampled_from(POOL + POOL + SHAPES), st.sampled_from(POOL + POOL + SHAPES),
+                     st.sampled_from(POOL + POOL + SHAPES), st.sampled_from(dict_idents()))
 
 
 def ids(min_size=1, max_size=3):
